@@ -123,10 +123,13 @@ def free_reads(fn):
 # ----------------------------------------------------------------------------
 # expression helpers
 # ----------------------------------------------------------------------------
-def const_truth(v):
-    """Truthiness of an expression when it is evident from its syntax, else None."""
+def const_truth(v, mutable_ok=False):
+    """Truthiness of an expression when it is evident from its syntax, else None.  A list / set / dict display says nothing
+    about the variable later on (it is filled or emptied through its methods) unless the caller tracks those calls."""
     if isinstance(v, ast.Constant):
         return bool(v.value)
+    if isinstance(v, (ast.List, ast.Set, ast.Dict)) and not mutable_ok:
+        return None
     if isinstance(v, (ast.List, ast.Tuple, ast.Set)):
         if any(isinstance(e, ast.Starred) for e in v.elts):
             return None
@@ -193,7 +196,16 @@ class DefiniteAssignment:
         self.fn = fn_node
         self.cfg = cfg or CFG(fn_node)
         self.locals, self.params = function_locals(fn_node)
-        self.nonempty_iter = nonempty_iter or (lambda e: False)
+        _ne = nonempty_iter or (lambda e: False)
+        _ne_memo = {}
+
+        def _ne_cached(e):
+            k = id(e)
+            if k not in _ne_memo:
+                _ne_memo[k] = _ne(e)
+            return _ne_memo[k]
+        self.nonempty_iter = _ne_cached
+        self._loads_memo = {}
         self.nested = {}
         for n in walk_own(fn_node):
             if isinstance(n, (ast.FunctionDef, ast.AsyncFunctionDef)) and n is not fn_node:
@@ -229,7 +241,10 @@ class DefiniteAssignment:
         return (assigned | (names & self.locals), facts)
 
     def _check_expr(self, expr, world, node):
-        loads, calls, walrus = loads_in(expr)
+        k = id(expr)
+        if k not in self._loads_memo:
+            self._loads_memo[k] = loads_in(expr) + (any(isinstance(sub, ast.Lambda) for sub in ast.walk(expr)),)
+        loads, calls, walrus, has_lambda = self._loads_memo[k]
         assigned = world[0]
         for n in loads:
             if n.id in self.locals and n.id not in assigned:
@@ -238,9 +253,8 @@ class DefiniteAssignment:
             name = c.func.id
             if name in self.nested and name in self.locals:
                 self._check_nested_call(name, world, node)
-        for sub in ast.walk(expr):
-            if isinstance(sub, ast.Lambda):
-                self.stats['lambda_bodies_unchecked'] += 1
+        if has_lambda:
+            self.stats['lambda_bodies_unchecked'] += 1
         if walrus:
             world = self._bind(world, walrus)
         return world
@@ -402,19 +416,23 @@ class DefiniteAssignment:
         cfg = self.cfg
         init = (frozenset(self.params), frozenset())
         self.state = {n: set() for n in cfg.nodes}
+        self.pending = {n: [] for n in cfg.nodes}       # worlds of state[n] that were not propagated yet
         self.collapsed = set()
         self.state[cfg.entry].add(init)
+        self.pending[cfg.entry].append(init)
         work = [cfg.entry]
         inwork = {cfg.entry}
-        done_worlds = {n: set() for n in cfg.nodes}
         while work:
             n = work.pop()
             inwork.discard(n)
-            new = self.state[n] - done_worlds[n]
+            new = self.pending[n]
             if not new:
                 continue
-            done_worlds[n] |= new
+            self.pending[n] = []
+            live = self.state[n]
             for w in new:
+                if w not in live:
+                    continue            # merged away meanwhile; the merged world is pending itself
                 outs = self._transfer(n, w)
                 for s, lab in n.succ:
                     if lab == 'exc':
@@ -439,11 +457,14 @@ class DefiniteAssignment:
                 return False
             st.clear()
             st.add(new)
+            self.pending[node] = [new]
             return True
         if world in st:
             return False
         st.add(world)
+        self.pending[node].append(world)
         if len(st) > WORLD_CAP:
+            before = set(st)
             # first: merge worlds with the same assigned-set (their facts are intersected);
             # this cannot produce a spurious unbound read by itself because the merged
             # worlds agree on what is assigned
@@ -454,12 +475,24 @@ class DefiniteAssignment:
             st.update(groups.items())
             self.stats['merged_nodes'] = self.stats.get('merged_nodes', 0) + 1
             if len(st) > WORLD_CAP // 2:
+                # second: merge worlds with the same facts (their assigned-sets are intersected: a name counts as bound
+                # only when it is bound in all of them); the correlation between a fact and what is bound under it -
+                # the reason facts are tracked at all - survives
+                groups = {}
+                for a, f in st:
+                    groups[f] = a if f not in groups else (groups[f] & a)
+                st.clear()
+                st.update((a, f) for f, a in groups.items())
+            if len(st) > WORLD_CAP // 2:
                 self.collapsed.add(node)
                 self.stats['collapsed_nodes'] += 1
                 a = frozenset.intersection(*(w[0] for w in st))
                 f = frozenset.intersection(*(w[1] for w in st))
                 st.clear()
                 st.add((a, f))
+            # worlds that exist only since the merge have to be propagated; so have the not yet propagated survivors
+            keep = [w for w in self.pending[node] if w in st]
+            self.pending[node] = keep + [w for w in st if w not in before]
         return True
 
 
